@@ -49,8 +49,8 @@ structure Simulable (cp : CP) : Prop where
 theorem cp_words_ok {bm : BM} (h : WfBM bm = true) {cp : CP} (hcp : cp ∈ bm.cps) :
     cp.prog.all (wordOk cp.arch) = true := by
   unfold WfBM at h
-  rw [Bool.and_eq_true, List.all_eq_true] at h
-  have := h.1 cp hcp
+  rw [Bool.and_eq_true, Bool.and_eq_true, List.all_eq_true] at h
+  have := h.1.1 cp hcp
   unfold wfCP at this
   simp only [Bool.and_eq_true] at this
   exact this.1.1.2
